@@ -315,6 +315,175 @@ fn drain_end_only(a: &mut Ad) -> Option<(&'static str, String)> {
     None
 }
 
+/// Two vectors of the same element type on one thread, a transaction open on each at the same time, their
+/// operations interleaved and ended in any order (C07, C05): each vector's subscribers receive exactly that
+/// vector's committed changes, an abandoned transaction leaves no trace on either.
+fn txn_pair_case(rng: &mut Rng, log: &mut Vec<String>, ev: &mut Ev) -> Option<(&'static str, String)> {
+    use eyeball_im::ObservableVectorTransaction as Txn;
+    let mk = |rng: &mut Rng| {
+        let mut v: ObservableVector<Tracked> = ObservableVector::with_capacity(32);
+        for _ in 0..rng.below(6) {
+            v.push_back(Tracked::new(rng.below(9) as u32));
+        }
+        v
+    };
+    let mut va = mk(rng);
+    let mut vb = mk(rng);
+    // subscribers: none / plain / batched on each side (a vector without receivers records nothing)
+    let subs_a = rng.below(3);
+    let subs_b = rng.below(3);
+    let mut sa = (subs_a > 0).then(|| va.subscribe().into_batched_stream());
+    let mut sb = (subs_b > 0).then(|| vb.subscribe().into_batched_stream());
+    let pre_a = items_of(va.iter());
+    let pre_b = items_of(vb.iter());
+    log.push(format!("vector a {:?} ({} subscriber), vector b {:?} ({} subscriber)", vals(&pre_a), subs_a.min(1), vals(&pre_b), subs_b.min(1)));
+    fn op(t: &mut Txn<'_, Tracked>, rng: &mut Rng, name: &str, log: &mut Vec<String>) {
+        let len = t.len();
+        let x = 20 + rng.below(9) as u32;
+        let what = match rng.below(9) {
+            0 => {
+                t.push_front(Tracked::new(x));
+                "push_front"
+            }
+            1 => {
+                drop(t.pop_back());
+                "pop_back"
+            }
+            2 => {
+                drop(t.pop_front());
+                "pop_front"
+            }
+            3 if len > 0 => {
+                drop(t.set(rng.below(len), Tracked::new(x)));
+                "set"
+            }
+            4 if len > 0 => {
+                drop(t.remove(rng.below(len)));
+                "remove"
+            }
+            5 if rng.chance(1, 3) => {
+                t.clear();
+                "clear"
+            }
+            6 if rng.chance(1, 3) => {
+                t.rollback();
+                "rollback"
+            }
+            7 => {
+                t.insert(rng.below(len + 1), Tracked::new(x));
+                "insert"
+            }
+            _ => {
+                t.push_back(Tracked::new(x));
+                "push_back"
+            }
+        };
+        log.push(format!("{name}.{what}"));
+    }
+    let mut ta = Some(va.transaction());
+    let mut tb = Some(vb.transaction());
+    let mut committed_a = None;
+    let mut committed_b = None;
+    let mut view_a = pre_a.clone();
+    let mut view_b = pre_b.clone();
+    for _ in 0..rng.range(2, 14) {
+        match rng.below(8) {
+            0..=2 => {
+                if let Some(t) = ta.as_mut() {
+                    op(t, rng, "ta", log);
+                }
+            }
+            3..=5 => {
+                if let Some(t) = tb.as_mut() {
+                    op(t, rng, "tb", log);
+                }
+            }
+            6 => {
+                if let Some(t) = ta.take() {
+                    view_a = items_of(t.iter());
+                    let c = rng.chance(2, 3);
+                    log.push(format!("ta {}", if c { "commit" } else { "drop" }));
+                    if c {
+                        t.commit();
+                    } else {
+                        drop(t);
+                    }
+                    committed_a = Some(c);
+                }
+            }
+            _ => {
+                if let Some(t) = tb.take() {
+                    view_b = items_of(t.iter());
+                    let c = rng.chance(2, 3);
+                    log.push(format!("tb {}", if c { "commit" } else { "drop" }));
+                    if c {
+                        t.commit();
+                    } else {
+                        drop(t);
+                    }
+                    committed_b = Some(c);
+                }
+            }
+        }
+    }
+    for (t, view, committed, name) in [(ta.take(), &mut view_a, &mut committed_a, "ta"), (tb.take(), &mut view_b, &mut committed_b, "tb")] {
+        if let Some(t) = t {
+            *view = items_of(t.iter());
+            let c = rng.chance(1, 2);
+            log.push(format!("{name} {}", if c { "commit" } else { "drop" }));
+            if c {
+                t.commit();
+            } else {
+                drop(t);
+            }
+            *committed = Some(c);
+        }
+    }
+    drop(ta);
+    drop(tb);
+    ev.count("pairs_interleaved_transaction_pairs");
+    for (name, v, pre, view, committed, s) in [("a", &va, &pre_a, &view_a, committed_a, &mut sa), ("b", &vb, &pre_b, &view_b, committed_b, &mut sb)] {
+        let post = items_of(v.iter());
+        let want = if committed == Some(true) { view.clone() } else { pre.clone() };
+        if vals(&post) != vals(&want) {
+            return Some(("C07", format!("vector {name}: contents {:?} after its transaction was {}, expected {:?}", vals(&post), if committed == Some(true) { "committed" } else { "dropped" }, vals(&want))));
+        }
+        if let Some(s) = s.as_mut() {
+            let mut rep = pre.clone();
+            let mut published: Vec<D> = vec![];
+            for _ in 0..100 {
+                let (_f, w) = flag_waker();
+                let mut cx = Context::from_waker(&w);
+                match Pin::new(&mut *s).poll_next(&mut cx) {
+                    Poll::Ready(Some(ds)) => {
+                        if ds.is_empty() {
+                            return Some(("C07", format!("vector {name}: an empty batch was delivered")));
+                        }
+                        published.extend(ds.iter().map(D::of));
+                    }
+                    Poll::Ready(None) => return Some(("C08", format!("vector {name}: the stream ended although the vector is alive"))),
+                    Poll::Pending => break,
+                }
+            }
+            for d in &published {
+                if let Err(e) = d.checked_apply(&mut rep) {
+                    return Some(("C05|C07", format!("vector {name}: its subscriber received {} which is inapplicable to {:?}: {e}", show_diffs(&published), vals(pre))));
+                }
+            }
+            if vals(&rep) != vals(&post) {
+                return Some((
+                    "C05|C07",
+                    format!("vector {name}: state before {:?} + what its subscriber received {} = {:?}, but the contents are {:?}", vals(pre), show_diffs(&published), vals(&rep), vals(&post)),
+                ));
+            }
+            if committed != Some(true) && !published.is_empty() {
+                return Some(("C07", format!("vector {name}: its transaction was dropped, yet its subscriber received {}", show_diffs(&published))));
+            }
+        }
+    }
+    None
+}
+
 pub fn run_pairs(p: &Params, prop: &'static str) -> Outcome {
     let seed = p.seed;
     let gen = "shared-limit-pairs";
@@ -325,11 +494,17 @@ pub fn run_pairs(p: &Params, prop: &'static str) -> Outcome {
         table_reset();
         out.ev.evaluations += 1;
         let mut ev = Ev::default();
-        let r = std::panic::catch_unwind(std::panic::AssertUnwindSafe(|| pair_case(&mut rng, &mut log, &mut ev)));
+        let r = std::panic::catch_unwind(std::panic::AssertUnwindSafe(|| {
+            if i % 3 == 2 {
+                txn_pair_case(&mut rng, &mut log, &mut ev)
+            } else {
+                pair_case(&mut rng, &mut log, &mut ev)
+            }
+        }));
         out.ev.merge(ev);
         let complaint = match r {
             Ok(c) => c,
-            Err(_) => Some(("C09|C14", format!("panic in a history of two adapters on one limit observable: {}", last_panic()))),
+            Err(_) => Some(("C05|C07|C09|C14", format!("panic in a history of two objects used side by side: {}", last_panic()))),
         };
         if let Some((tags, what)) = complaint {
             if tags.split('|').any(|t| t == prop) {
